@@ -7,9 +7,9 @@ import (
 	"go/ast"
 	"go/constant"
 	"go/printer"
-	"strings"
 	"go/token"
 	"go/types"
+	"strings"
 
 	"golang.org/x/tools/go/ssa"
 )
@@ -974,7 +974,6 @@ func (fr *Frame) guardCheck(x *ssa.FieldAddr, base *LV, reach T, st *State) {
 	ex.oblige("lock:"+nt.Obj().Name()+"."+stt.Field(x.Field).Name()+":"+kind, "lock", props, reach, or(fresh, held), ex.pos(instrPos(x)),
 		fmt.Sprintf("%s.%s is accessed with %s held (guarded_by, %s)", nt.Obj().Name(), stt.Field(x.Field).Name(), g.Mutex, relPath(g.Where)))
 }
-
 
 // spawnPre: `go f(args)` where f is a closure with a contract: the requires clauses of f are proved at the spawn site,
 // with f's parameters bound to the arguments and its captured variables resolved as the locals they are.
